@@ -75,6 +75,14 @@ def part1(root):
                         ob='bnd:C17.corrupt_is_miss', sig='wrong-tree:' + kind, detail='parse returned a different tree',
                         inp='module %d, %s pickle (%d bytes)' % (i, kind, len(blob)), count=0))['count'] += 1
                 pc.parser_cache.clear()
+                # the save that followed the miss repaired the entry: the file on disk is a loadable item again
+                disk = pc._load_from_file_system(g._hashed, src, os.path.getmtime(src), cache_path=cdir)
+                if disk is None or disk.dump(indent=None) != ref:
+                    fails.setdefault(('bnd:C17.repair', 'not-rewritten:' + kind), dict(
+                        ob='bnd:C17.repair', sig='not-rewritten:' + kind,
+                        detail='after the parse that missed, the cache file is still not a loadable entry of the current content',
+                        inp='module %d, %s pickle (%d bytes)' % (i, kind, len(blob)), count=0))['count'] += 1
+                pc.parser_cache.clear()
                 m2 = g.parse(path=src, cache=True, cache_path=cdir)        # repaired entry is served
                 if m2.dump(indent=None) != ref:
                     fails.setdefault(('bnd:C17.repair', kind), dict(ob='bnd:C17.repair', sig=kind, detail='second parse wrong',
